@@ -29,6 +29,7 @@ META = {
     "assumptions": ["stub aligner obeying pywfa's documented result contract", "trivial in-process multiprocessing stand-in (schedules are C11)",
                     "path sequence and read are opaque objects that record the slice taken from them"],
 }
+META["explanation"] += "  parsed/record: the record comes from text through the real GAF reader, with a solver-chosen subset of eight optional fields whose values contain ':', '%', blanks, '=' and ','."
 
 OPS = {0: "M", 1: "I", 2: "D", 8: "X"}
 
@@ -71,6 +72,7 @@ def harnesses(tier):
         hs.append({"id": "record/" + "".join(OPS[o] for o in s), "params": {"kind": "record", "ops": list(s)}, "timeout": 300, "twin": s == (0, 2, 0)})
     hs.append({"id": "stream/2", "params": {"kind": "stream"}, "timeout": 600})
     hs.append({"id": "realgraph/paths", "params": {"kind": "realgraph"}, "timeout": 600})
+    hs.append({"id": "parsed/record", "params": {"kind": "parsed"}, "timeout": 600})
     return hs
 
 
@@ -177,6 +179,11 @@ def make_aligner(tuples, calls):
     return Aligner
 
 
+def pickbit(sel, i):
+    """bit i of the selector (branches on the symbolic value)"""
+    return (sel // (2 ** i)) % 2 == 1
+
+
 def build(params):
     if params["kind"] == "record":
         ops = params["ops"]
@@ -255,6 +262,57 @@ def build(params):
 
         return Harness(args, pre, case, fuel=200)
 
+    if params["kind"] == "parsed":
+        # the record comes through the real GAF reader (gaftools.gaf.GAF.parse_gaf_line) from text, with optional fields whose values
+        # contain ':', '%', blanks and '=': realign must hand all of them on unchanged
+        PT = ["NM:i:3", "rg:Z:chr1:1000-2000", "cg:Z:4=2D1=13D3=", "tm:Z:12:30:05", "co:Z:50%%_gc %s 10% of", "id:f:0.96", "zz:Z:a=b,c;d|e", "zq:B:c,1,-2"]
+
+        GROUP = [0, 1, 2, 1, 3, 4, 4, 3]  # selector bit that switches each field on
+
+        def case4(ps, qs, n, pl, ql, nm, bl, mq, sel):
+            R, GA = M["R"], M["GA"]
+            calls = []
+            pe, qe = ps + n, qs + n
+            keep = [t for i, t in enumerate(PT) if pickbit(sel, GROUP[i])]
+            line = rt.vp_fmt_("r1\t%d\t%d\t%d\t+\t>a<b\t%d\t%d\t%d\t%d\t%d\t%d", (ql, qs, qe, pl, ps, pe, nm, bl, mq))
+            for t in keep:
+                line = line + "\t" + t
+            line = line + "\n"
+            install(R, GA, [], make_aligner([(0, n)], calls), calls)
+            R.GAF = GA.GAF
+            e = stubs.env()
+            e.files["in.gaf"] = stubs.MFile("text", [line], None)
+            out = stubs.vp_open("o.gaf", "w")
+            R.realign_gaf("in.gaf", "g.gfa", "r.fa", out, 1)
+            lines = e.files["o.gaf"].lines
+            if len(lines) != 1:
+                return "%d output lines for 1 record" % len(lines)
+            f = lines[0].rstrip("\n").split("\t")
+            want12 = ["r1", ql, qs, qe, "+", ">a<b", pl, ps, pe]
+            for i, w in enumerate(want12):
+                if isinstance(w, str):
+                    if not (f[i] == w):
+                        return "column %d changed" % (i + 1)
+                elif not (rt.sym_int(f[i]) == w):
+                    return "column %d changed" % (i + 1)
+            if not (rt.sym_int(f[11]) == mq):
+                return "mapping quality changed"
+            opt = f[12:]
+            if not any(t.startswith("cg:Z:") for t in keep):
+                keep = keep + ["cg:Z:"]  # a record without a CIGAR gains the computed one
+            if len(opt) != len(keep):
+                return "optional fields %r, input had %r" % ([str(x) for x in opt], keep)
+            for o, t in zip(opt, keep):
+                if t.startswith("cg:Z:"):
+                    if not (o == rt.vp_fmt_("cg:Z:%d=", (n,))):
+                        return "emitted cg is not the aligner's CIGAR"
+                elif not (o == t):
+                    return "optional field %r written as %r" % (t, str(o))
+            return None
+
+        return Harness([("ps", "int"), ("qs", "int"), ("n", "int"), ("pl", "int"), ("ql", "int"), ("nm", "int"), ("bl", "int"), ("mq", "int"), ("sel", "int")],
+                       ["0 <= ps and 0 <= qs and 1 <= n <= 60000 and ps + n <= pl and qs + n <= ql and nm >= 0 and bl >= 0 and mq >= 0 and 0 <= sel < 32"], case4, fuel=200)
+
     if params["kind"] == "realgraph":
         # the reference handed to the aligner is the spelling of the walk (real GFA.extract_path, all orientation mixes)
         from . import c14
@@ -329,6 +387,18 @@ def replay(params, model, wd):
 
     M.update(R=R, GA=GA)
     stubs.reset()
+    if params["kind"] in ("parsed", "realgraph"):
+        # these kinds read model files through real gaftools readers: give them real files
+        os.chdir(wd)
+
+        class RealFiles(dict):
+            def __setitem__(self, k, mf):
+                dict.__setitem__(self, k, mf)
+                if getattr(mf, "lines", None):
+                    with open(k, "w") as fh:
+                        fh.write("".join(str(l) for l in mf.lines))
+
+        stubs.env().files = RealFiles()
     h = build(params)
     try:
         r = h.case(*model["args"])
